@@ -722,6 +722,16 @@ func ruleGuardNil(c *Ctx, r *R) {
 						continue
 					}
 				}
+				// ... or every call of the helper is itself made under the kind test of the value it hands over
+				if p, isParam := g.src.(*ssa.Parameter); isParam {
+					if c.argAtAllCallSites(p, func(arg ssa.Value, site ssa.CallInstruction) bool {
+						g2 := &nilGuardCtx{r: call, src: arg, getter: callee}
+						return g2.guardedAt(site)
+					}, 0) {
+						r.ok("caller-guard:"+key, c.Pos(instrPos(call)), "the receiver is a parameter, and every call of this function is dominated by the kind test of the value it passes")
+						continue
+					}
+				}
 				r.bad(key, c.Pos(instrPos(call)), fmt.Sprintf("%s can return nil (e.g. when the value is not an object); its result is dereferenced at %s (%s) with no dominating nil/kind test: a script passing the other kind of value crashes the host with a nil dereference", ssaFuncName(callee), c.Pos(instrPos(bad)), describeInstr(bad)))
 			}
 		}
